@@ -68,6 +68,26 @@ def decode_sv_component(comp):
     return out
 
 
+SUP_MAX_MS = 300      # suppression_interval 0.2 s: the period is drawn from [0.5, 1.5) x interval
+
+
+def template_histories(rng):
+    """Deterministic shapes around the timer task's suspension points: a publication within a few loop iterations of an
+    incoming outdated vector (either order), then isolated outdated vectors that each need an answer."""
+    out = []
+    older = {'kind': 'older', 'pick': [0.9] * 6, 'delta': [1] * 6}
+    for k_ in range(-3, 5):
+        for nn in (1, 2):
+            evs = [('recv', {'kind': 'newer', 'pick': [0.9] * 6, 'delta': [2] * 6}), ('idle', 500), ('pub-recv', older, k_), ('idle', 500),
+                   ('recv', older), ('idle', 500), ('recv', older), ('idle', 500)]
+            out.append({'nodes': nn, 'events': evs, 'last_used': rng.choice([3, 7]), 'publish_in_callback': False, 'template': True})
+    for nn in (1, 3):
+        evs = [('recv', {'kind': 'newer', 'pick': [0.9] * 6, 'delta': [2] * 6}), ('advance', 'at'), ('recv', older), ('idle', 500), ('recv', older), ('idle', 500),
+               ('advance', 'at'), ('recv', older), ('idle', 500)]
+        out.append({'nodes': nn, 'events': evs, 'last_used': 3, 'publish_in_callback': False, 'template': True})
+    return out
+
+
 def gen_history(rng):
     nn = rng.randint(1, 4)
     nodes = NODES[:nn]
@@ -81,14 +101,16 @@ def gen_history(rng):
         else:
             evs.append(('advance', rng.choice(['before', 'past', 'past', 'small', 'at'])))
     evs.append(('advance', 'past'))
-    return {'nodes': nn, 'events': evs, 'last_used': rng.choice([0, 0, 3]), 'publish_in_callback': rng.random() < 0.25}
+    return {'nodes': nn, 'events': evs, 'last_used': rng.choice([0, 0, 0, 3, 3, 254, 65535, 2**32 - 2, 2**32 - 1, 2**32, 2**40 + 1]), 'publish_in_callback': rng.random() < 0.25}
 
 
 def gen_vector_spec(rng, nodes):
     """A vector described relative to the current local vector (resolved at run time)."""
     kind = rng.choice(['newer', 'newer', 'older', 'equal', 'incomparable', 'unknown-node', 'self-too-much', 'self-ok',
                        'no-seq', 'no-id', 'undecodable', 'wrong-length', 'empty'])
-    return {'kind': kind, 'pick': [rng.random() for _ in range(6)], 'delta': [rng.randint(1, 3) for _ in range(6)]}
+    big = rng.random() < 0.08       # sequence numbers are 64-bit: some vectors jump across the 2**16 / 2**32 width boundaries
+    return {'kind': kind, 'pick': [rng.random() for _ in range(6)],
+            'delta': [rng.choice([2**16 - 1, 2**16, 2**31, 2**32 - 1, 2**32, 2**32 + 7, 2**48]) if big and rng.random() < 0.6 else rng.randint(1, 3) for _ in range(6)]}
 
 
 def resolve_vector(spec, local, self_seq, nodes):
@@ -189,6 +211,30 @@ def execute(ctx, hist, rng):
             sent_idx = len(face.sent)
             return out
 
+        obligations = []        # independent bounded-progress monitor: [recv index in face.sent, virtual ms, witness]
+        recv_times = []
+
+        def sync_emitted_since(idx):
+            for t, b in face.sent[idx:]:
+                try:
+                    if rc.strict_interest(b)['name'][:len(BASE_PREFIX)] == BASE_PREFIX:
+                        return True
+                except rc.Reject:
+                    pass
+            return False
+
+        def check_obligations(final=False):
+            now = S.now_ms()
+            for ob in list(obligations):
+                idx, t, wob = ob
+                if sync_emitted_since(idx):
+                    obligations.remove(ob)
+                    ctx.event('outdated-vector-answered')
+                elif now > t + SUP_MAX_MS + 60:
+                    obligations.remove(ob)
+                    R['viol'].append(('outdated-vector-not-answered', f'an isolated outdated vector received at {t} ms was not followed by any sync Interest within '
+                                      f'{SUP_MAX_MS + 60} ms (longest suppression period {SUP_MAX_MS} ms) although the local vector is newer', wob))
+
         def check_emission_content(p, w):
             try:
                 vec = decode_sv_component(p['name'][len(BASE_PREFIX)])
@@ -206,7 +252,7 @@ def execute(ctx, hist, rng):
         for ei, ev in enumerate(hist['events']):
             w = {'history': hist, 'event_index': ei, 'event': ev}
             nerr = len(S.sentinel.all())
-            if ev[0] == 'recv':
+            if ev[0] in ('recv', 'pub-recv'):
                 ents, flags = resolve_vector(ev[1], model_local, self_seq, nodes)
                 comp = sv_component(ents, ev[1]['kind'])
                 name = BASE_PREFIX + [comp] + ([C(b'extra')] if flags['extra_comp'] else [])
@@ -214,8 +260,29 @@ def execute(ctx, hist, rng):
                 before_real = dict(inst.local_sv)
                 state_before = inst.state
                 n_missing = len(missing)
+                recv_idx = len(face.sent)
+                if ev[0] == 'pub-recv':
+                    # a publication and an incoming vector within a few loop iterations of each other (no idling in between)
+                    k_ = ev[2]
+                    if k_ < 0:
+                        dt = face.deliver_task(wire)
+                        for _ in range(-k_ - 1):
+                            await asyncio.sleep(0)
+                    seq = inst.new_data()
+                    self_seq += 1
+                    model_local[nid(SELF)] = self_seq
+                    before_real[nid(SELF)] = self_seq
+                    if seq != self_seq:
+                        R['viol'].append(('publish-seq', f'new_data returned {seq}, expected {self_seq}', w))
+                    if k_ >= 0:
+                        for _ in range(k_):
+                            await asyncio.sleep(0)
+                    ctx.event('publication-next-to-reception')
                 try:
-                    await face.deliver(wire)
+                    if ev[0] == 'pub-recv' and ev[2] < 0:
+                        await dt
+                    else:
+                        await face.deliver(wire)
                 except Exception as e:   # noqa
                     R['viol'].append((f'reception-raises:{type(e).__name__}@{raising_site(e)[0]}', f'{e!r}', w))
                 for _ in range(4):
@@ -282,6 +349,20 @@ def execute(ctx, hist, rng):
                         mech = 'svs-malformed-entry-partial-merge'
                     R['viol'].append((mech, f'callback fired {fired}x but the vector {"raised" if raised else "did not raise"} an entry', w))
                 ctx.event('vector-' + kind)
+                t_now = S.now_ms()
+                # another accepted vector close by makes the merge of "vectors heard during that period" depend on the period's
+                # (randomised) length: such obligations are dropped, only isolated outdated vectors are judged
+                if True:
+                    for ob in list(obligations):
+                        if t_now - ob[1] <= SUP_MAX_MS + 60:
+                            obligations.remove(ob)
+                    isolated = not recv_times or t_now - recv_times[-1] > SUP_MAX_MS + 60
+                    recv_times.append(t_now)        # every reception counts, also ignored / partially accepted vectors
+                    if isolated and not ignore and not flags['partial_ok'] and pubs_now == R.get('cb_pubs_seen', 0) and not hist.get('publish_in_callback') and \
+                            any(k in wellformed and v > wellformed[k] for k, v in model_local.items()):
+                        # (entries the vector does not mention at all are left out: the statement does not say whether that counts as outdated)
+                        obligations.append([recv_idx, t_now, w])
+                        ctx.event('outdated-vector-obligation')
                 accepted_vec = wellformed if (after_real != before_real or not ignore) and not ignore else None
                 if inst.state == SvsState.SyncSuppression:
                     if state_before == SvsState.SyncSteady:
@@ -293,6 +374,26 @@ def execute(ctx, hist, rng):
                 else:
                     heard = None
                 R['pattern'].append('r')
+                if ev[0] == 'pub-recv':
+                    # the outdated vector may legitimately start a suppression period that swallows the immediate announcement:
+                    # the publication must be announced by the end of that period at the latest
+                    await asyncio.sleep((SUP_MAX_MS + 60) / 1000.0)
+                    em = take_emissions()
+                    if not em:
+                        R['viol'].append(('publish-not-announced', f'no sync Interest within {SUP_MAX_MS + 60} ms (virtual) of new_data() next to a reception', w))
+                    for t, p in em[-1:]:
+                        check_emission_content(p, w)
+                    obligations.clear()
+                    heard = None
+            elif ev[0] == 'idle':
+                t_end = S.now_ms() + ev[1]
+                while S.now_ms() < t_end:
+                    await asyncio.sleep(0.02)
+                    check_obligations()
+                for t, p in take_emissions():
+                    check_emission_content(p, w)
+                heard = None if inst.state != SvsState.SyncSuppression else heard
+                R['pattern'].append('i')
             elif ev[0] == 'pub':
                 t0 = S.now_ms()
                 seq = inst.new_data()
@@ -360,6 +461,10 @@ def execute(ctx, hist, rng):
                     if em:
                         R['viol'].append(('unexpected-emission', f'sync Interest emitted at {em[0][0]} ms although no timer was due (due {due:.1f}) and nothing was published', w))
                     R['pattern'].append('a')
+            check_obligations()
+        if obligations:
+            await asyncio.sleep((SUP_MAX_MS + 80) / 1000.0)
+            check_obligations()
         inst.stop()
         the_app.shutdown()
         await asyncio.wait_for(main_task, 5)
@@ -373,8 +478,9 @@ def run(ctx):
     rng = ctx.rng
     orig = svs_sync.secrets.randbits
     try:
-        for i in range(ctx.n(700, 300000)):
-            hist = gen_history(rng)
+        templates = template_histories(rng) if ctx.shard == 0 else []
+        for i in range(ctx.n(700, 300000) + len(templates)):
+            hist = templates[i] if i < len(templates) else gen_history(rng)
             R, S = execute(ctx, hist, rng)
             for v in R['viol']:
                 ctx.report(*v)
@@ -382,12 +488,13 @@ def run(ctx):
                 ctx.report(f'scenario-{S.result}', f'{S.error!r}', {'history': hist})
             for le in S.sentinel.all():
                 pass    # attributed per event above
-            ctx.case((tuple(e[0] if e[0] != 'recv' else e[1]['kind'] for e in hist['events']), ''.join(R['pattern'])),
+            ctx.case((tuple(e[0] if e[0] not in ('recv', 'pub-recv') else e[1]['kind'] for e in hist['events']), ''.join(R['pattern'])),
                      nontrivial=R['handled'] > 0 and R['expiries'] > 0, sample=hist if i % 250 == 0 else None)
     finally:
         svs_sync.secrets.randbits = orig
     for k in ('suppression-entered', 'vector-heard-during-suppression', 'suppression-expiry-needed', 'suppression-expiry-not-needed',
-              'periodic-expiry', 'publication', 'vector-newer', 'vector-self-too-much', 'vector-no-seq'):
+              'periodic-expiry', 'publication', 'vector-newer', 'vector-self-too-much', 'vector-no-seq', 'outdated-vector-answered',
+              'publication-next-to-reception'):
         ctx.need_event(k)
     ctx.assumptions = ['when suppression is entered is read from the instance (not part of the statement)',
                        'a vector containing a malformed entry may be merged without that entry or ignored entirely',
